@@ -846,6 +846,14 @@ def place_origins(body, p, _seen=None, depth=0, extra=()):
                             pj2 = ("@Some",) + tuple(pj2[1:])
                     out |= origins(body, t["args"][idx], _seen, depth + 1, pj2)
                     passed = True
+            if not passed and fr is not None and proj and proj[0] == "@Ok" and tail2(fr["path"]) in ("Option::ok_or", "Option::ok_or_else") and t["args"]:
+                # `opt.ok_or(e)`: the Ok payload is the Some payload of opt
+                out |= origins(body, t["args"][0], _seen, depth + 1, ("@Some",) + tuple(proj[1:]))
+                passed = True
+            if not passed and fr is not None and proj and proj[0] == "@Some" and tail2(fr["path"]) == "Result::ok" and t["args"]:
+                # `res.ok()`: the Some payload is the Ok payload of res
+                out |= origins(body, t["args"][0], _seen, depth + 1, ("@Ok",) + tuple(proj[1:]))
+                passed = True
             if not passed and fr is not None and proj and proj[0] in ("@Some", "@Ok", "@Continue") and tail2(fr["path"]) == "FromResidual::from_residual":
                 # `?` on the failure path builds None / Err: that definition cannot be the source of a Some / Ok payload
                 passed = True
